@@ -20,4 +20,6 @@ func TestTreeShape(t *testing.T) {
 }
 
 // FuzzTreeShape: native coverage-guided fuzzing of the same property (thorough tier only).
-func FuzzTreeShape(f *testing.F) { vk.Fuzz(f, suite, "shapeplan", treekit.GenPlan(opts()), treekit.RunPlan(opts())) }
+func FuzzTreeShape(f *testing.F) {
+	vk.Fuzz(f, suite, "shapeplan", treekit.GenPlan(opts()), treekit.RunPlan(opts()))
+}
